@@ -33,13 +33,88 @@ def T(interp, d):
     return (ops.pow2(2 * d + 2) - 1) / 3
 
 
+def _f(p, name):
+    return z3num(p.get(name))
+
+
+def desc_arith(d, s):
+    """Arithmetic definition: d is s or a descendant of s."""
+    P = ops.pow2(_f(d, "n") - _f(s, "n"))
+    return z3.And(_f(d, "n") >= _f(s, "n"),
+                  _f(s, "x") * P <= _f(d, "x"), _f(d, "x") < (_f(s, "x") + 1) * P,
+                  _f(s, "y") * P <= _f(d, "y"), _f(d, "y") < (_f(s, "y") + 1) * P)
+
+
+@spec
+def desc_def(interp, d, s):
+    return desc_arith(d, s)
+
+
+I = z3.IntSort()
+Desc = z3.Function("Desc", I, I, I, I, I, I, z3.BoolSort())     # opaque twin of desc_arith
+Child = z3.Function("Child", I, I, I, I, I, I, z3.BoolSort())   # marker: first position is a child of the second
+
+
+def _six(a, b):
+    return [_f(a, "n"), _f(a, "x"), _f(a, "y"), _f(b, "n"), _f(b, "x"), _f(b, "y")]
+
+
 @spec
 def desc(interp, d, s):
-    """d is s or a descendant of s (positions)."""
-    P = ops.pow2(z3num(d.get("n")) - z3num(s.get("n")))
-    return z3.And(z3num(d.get("n")) >= z3num(s.get("n")),
-                  z3num(s.get("x")) * P <= z3num(d.get("x")), z3num(d.get("x")) < (z3num(s.get("x")) + 1) * P,
-                  z3num(s.get("y")) * P <= z3num(d.get("y")), z3num(d.get("y")) < (z3num(s.get("y")) + 1) * P)
+    """d is s or a descendant of s — opaque in sequence-level obligations; its algebra comes
+    from the lemma-backed axioms of the 'Desc' theory."""
+    return Desc(*_six(d, s))
+
+
+@spec
+def is_child(interp, c, p):
+    return Child(*_six(c, p))
+
+
+def child_arith(cn, cx, cy, pn, px, py):
+    return z3.And(cn == pn + 1, cx / 2 == px, cy / 2 == py)
+
+
+def desc6(en, ex, ey, sn, sx, sy):
+    P = ops.pow2(en - sn)
+    return z3.And(en >= sn, sx * P <= ex, ex < (sx + 1) * P, sy * P <= ey, ey < (sy + 1) * P)
+
+
+def desc_axioms():
+    en, ex, ey, cn, cx, cy, pn, px, py, dn, dx, dy = z3.Ints("en ex ey cn cx cy pn px py dn dx dy")
+    e, c, p, d = (en, ex, ey), (cn, cx, cy), (pn, px, py), (dn, dx, dy)
+    ax = []
+    # A1 child step
+    ax.append(z3.ForAll(list(e + c + p), z3.Implies(z3.And(Desc(*e, *c), Child(*c, *p)), Desc(*e, *p)),
+                        patterns=[z3.MultiPattern(Desc(*e, *c), Child(*c, *p))]))
+    # A2 facts about a child/parent pair
+    ax.append(z3.ForAll(list(c + p), z3.Implies(Child(*c, *p), z3.And(Desc(*c, *c), Desc(*p, *p), z3.Not(Desc(*p, *c)),
+                                                                     Desc(*c, *p))),
+                        patterns=[Child(*c, *p)]))
+    # A3 siblings have disjoint descendants
+    ax.append(z3.ForAll(list(e + c + d + p),
+                        z3.Implies(z3.And(Desc(*e, *c), Child(*c, *p), Child(*d, *p), z3.Or(cx != dx, cy != dy)),
+                                   z3.Not(Desc(*e, *d))),
+                        patterns=[z3.MultiPattern(Desc(*e, *c), Child(*c, *p), Child(*d, *p))]))
+    # A4 levels
+    ax.append(z3.ForAll(list(e + p), z3.Implies(Desc(*e, *p), z3.And(en >= pn, z3.Implies(en == pn, z3.And(ex == px, ey == py)))),
+                        patterns=[Desc(*e, *p)]))
+    # A5 transitivity
+    ax.append(z3.ForAll(list(e + c + p), z3.Implies(z3.And(Desc(*e, *c), Desc(*c, *p)), Desc(*e, *p)),
+                        patterns=[z3.MultiPattern(Desc(*e, *c), Desc(*c, *p))]))
+    # A6 descendants of the root are the valid positions
+    ax.append(z3.ForAll(list(e), z3.Implies(Desc(en, ex, ey, 0, 0, 0),
+                                             z3.And(en >= 0, ex >= 0, ey >= 0, ex < ops.pow2(en), ey < ops.pow2(en))),
+                        patterns=[Desc(en, ex, ey, 0, 0, 0)]))
+    # definition of the marker
+    ax.append(z3.ForAll(list(c + p), Child(*c, *p) == child_arith(*c, *p), patterns=[Child(*c, *p)]))
+    return ax
+
+
+from pyvc.theories import register_theory  # noqa: E402
+_LEMS = ["desc_child_step", "desc_child_pair", "desc_siblings_disjoint", "desc_levels", "desc_transitive", "desc_root"]
+register_theory("Desc", desc_axioms, lemmas=_LEMS)
+register_theory("Child", desc_axioms, lemmas=_LEMS)
 
 
 @spec
